@@ -41,7 +41,7 @@ RULE = (
 ASSUMPTIONS = [
     "writers mutate only inside `with tree:` (as the property states)",
     "context switches happen only at harness-visible yield points; a snapshot operation without callbacks is atomic for the scheduler",
-    "real-lock part: a blocked reader is detected by content (it must return a committed state), the only timeout (30 s on operations that take microseconds) reports a deadlock",
+    "real-lock part: a blocked reader is detected by content (it must return a committed state), the only timeout (300 s on operations that take microseconds) reports a deadlock",
 ]
 EXHAUSTIVE_NOTE = {"quick": "all schedules of a pair section x each of 8 snapshot operations, of a rebuild section x {to_dict_list, save} and of a typed pair section x save (evidence classes say whether a limit was hit)", "thorough": "all schedules of {pair, rebuild, move} section x each of 8 snapshot operations, plus 2-section writers"}
 
@@ -354,8 +354,8 @@ def run_real(case, rec):
     to, tr = threading.Thread(target=owner, daemon=True), threading.Thread(target=reader, daemon=True)
     to.start()
     tr.start()
-    to.join(30)
-    tr.join(30)
+    to.join(300)
+    tr.join(300)
     rec.evals += 1
     rec.nt(True)
     rec.cls(f"op={op}")
